@@ -100,7 +100,7 @@ MAX_TERMS = 6000
 def _merge_exp(m):
     """exp(u)^a * exp(v)^b -> exp(a u + b v) inside one monomial."""
     c = _ctx._CUR[0]
-    if c is None or len(m) < 1:
+    if c is None or len(m) < 1 or not c.merge_exp:
         return m, None
     ex_ = [(a, k) for a, k in m if c.atom_keys[a][0] == 'exp']
     if len(ex_) < 2 and not (len(ex_) == 1 and ex_[0][1] > 1):
@@ -709,6 +709,49 @@ def div(a, b):
     return _mk(lift(q).p, d)
 
 
+def clear_inverses(x, max_rounds=40):
+    """Multiply a polynomial through by the denominators of its inverse atoms:
+    returns (numerator, denominator_factors) with x == numerator / prod(den^k) and the
+    numerator free of inverse atoms.  Exact (uses r*b = 1 for every inverse atom r of b)."""
+    c = _ctx.cur()
+    x = lift(x)
+    p = dict(x.p)
+    dens = []
+    for _ in range(max_rounds):
+        # pick an inverse atom occurring in p
+        pick = None
+        for m in p:
+            for (a, k) in m:
+                if c.atom_keys[a][0] == 'inv':
+                    pick = a
+                    break
+            if pick is not None:
+                break
+        if pick is None:
+            return SymReal(p), dens
+        pw = max(k for m in p for (a, k) in m if a == pick)
+        b = c.inv_of[pick]
+        dens.append((b, pw))
+        bp = {ONE: Fr(1)}
+        pows = [bp]
+        for _i in range(pw):
+            bp = _pmul(bp, b.p)
+            pows.append(bp)
+        out = {}
+        for m, co in p.items():
+            q = 0
+            rest = []
+            for (a, k) in m:
+                if a == pick:
+                    q = k
+                else:
+                    rest.append((a, k))
+            term = _pmul({tuple(rest): co}, pows[pw - q])
+            out = _padd(out, term)
+        p = out
+    raise SymError("could not clear inverse atoms")
+
+
 def cmp(a, b, op):
     if _is_cplx(a) or _is_cplx(b):
         if op == '==':
@@ -747,6 +790,23 @@ def ite(c, a, b):
     """If-merge of two (possibly symbolic) reals."""
     if isinstance(c, (bool, np.bool_)):
         return a if c else b
+    cx = _ctx._CUR[0]
+    if cx is not None and cx.resolve_ite and isinstance(c, SymBool):
+        # a condition already decided by the path condition selects its branch outright
+        k = c.e.get_id()
+        r = cx.ite_cache.get(k)
+        if r is None:
+            r1, _ = cx._check(z3.Not(c.e), light=True)
+            if r1 == 'unsat':
+                r = True
+            else:
+                r2, _ = cx._check(c.e, light=True)
+                r = False if r2 == 'unsat' else 'both'
+            cx.ite_cache[k] = r
+        if r is True:
+            return a
+        if r is False:
+            return b
     if _is_cplx(a) or _is_cplx(b):
         a = clift(a)
         b = clift(b)
@@ -1229,6 +1289,8 @@ def _trig_atoms(a0):
         c.add_axiom(z3.Implies(z3.And(az > HP, az < 3 * HP), cv < 0))
         c.add_axiom(z3.Implies(az == 0, z3.And(cv == 1, sv == 0)))
         c.trig_atoms.append((a0, ci, si))
+        for x in c.trig_points:
+            _trig_point_axioms(c, az, cv, sv, x)
         # an *input* angle: remember its circle point so that a model's (cos, sin) - which
         # is what every computation used - determines the replayed angle value
         if len(a0.p) == 1:
@@ -1236,6 +1298,35 @@ def _trig_atoms(a0):
             if len(m) == 1 and m[0][1] == 1 and co == 1 and c.atom_keys[m[0][0]][0] == 'var':
                 c.angle_inputs[c.atom_keys[m[0][0]][1]] = (cv, sv)
     return (SymReal({((ci, 1),): Fr(1)}), SymReal({((si, 1),): Fr(1)}))
+
+
+def _trig_point_axioms(c, az, cv, sv, x):
+    HP = _rv(Fr(math.pi / 2))
+    PI = _rv(Fr(math.pi))
+    xz = _rv(Fr(x))
+    e = Fr(1, 10 ** 12)
+    sx = Fr(math.sin(x))
+    cx = Fr(math.cos(x))
+    if -math.pi / 2 <= x <= math.pi / 2:
+        c.add_axiom(z3.And(
+            z3.Implies(z3.And(az >= -HP, az <= xz), sv <= _rv(sx + e)),
+            z3.Implies(z3.And(az >= xz, az <= HP), sv >= _rv(sx - e))))
+    if 0 <= x <= math.pi:
+        c.add_axiom(z3.And(
+            z3.Implies(z3.And(az >= 0, az <= xz), cv >= _rv(cx - e)),
+            z3.Implies(z3.And(az >= xz, az <= PI), cv <= _rv(cx + e))))
+
+
+def note_trig_point(x):
+    """sin is increasing on [-pi/2, pi/2], cos decreasing on [0, pi]: compare every trig atom
+    with the concrete point x (1e-12 slack for libm)."""
+    c = _ctx._CUR[0]
+    if c is None:
+        return
+    x = float(x)
+    c.trig_points.append(x)
+    for (a0, ci, si) in c.trig_atoms:
+        _trig_point_axioms(c, a0.z3(), c.atoms[ci], c.atoms[si], x)
 
 
 def cos(a):
